@@ -516,6 +516,76 @@ func replayFailedThenHealthy(work string) (viol string, infra string, obs map[st
 	return "", "", obs
 }
 
+// replayManyAtOnce: one caller process releases 16 Launch calls for 16 different daemon names at
+// the same moment (whatever Launch shares between calls - environment slices, buffers, command
+// objects - is then written by several calls at once). Every Launch that reports success must
+// name the pid of the process that runs the handler registered for its own name, alive at return.
+func replayManyAtOnce(work string) (viol string, infra string, obs map[string]any) {
+	dir := filepath.Join(work, fmt.Sprintf("many-%d", time.Now().UnixNano()))
+	os.MkdirAll(dir, 0o755)
+	obs = map[string]any{}
+	cmd := exec.Command(*procBin, "caller4")
+	cmd.Env = append(os.Environ(), "GLB_VERIF_PAUSE_DIR="+dir)
+	if err := cmd.Start(); err != nil {
+		return "", "cannot start the caller: " + err.Error(), obs
+	}
+	done := make(chan struct{})
+	go func() { cmd.Wait(); close(done) }()
+	var pids []int
+	defer func() {
+		os.WriteFile(filepath.Join(dir, "daemon.stop"), nil, 0o644)
+		for _, p := range pids {
+			if p > 1 {
+				syscall.Kill(p, syscall.SIGKILL)
+			}
+		}
+		select {
+		case <-done:
+		case <-time.After(5 * time.Second):
+			cmd.Process.Kill()
+		}
+	}()
+	if !waitFile(filepath.Join(dir, "result4.json")) {
+		return "", "the simultaneous Launch calls did not all return within the step timeout", obs
+	}
+	var r struct {
+		Launches []struct {
+			Pid int
+			Err string
+		}
+	}
+	if err := json.Unmarshal(must(os.ReadFile(filepath.Join(dir, "result4.json"))), &r); err != nil {
+		return "", "bad result4.json", obs
+	}
+	started := map[int]int{} // daemon pid -> index of the handler it runs
+	for i := range r.Launches {
+		if ids := readInts(filepath.Join(dir, fmt.Sprintf("multi.%02d.started", i))); len(ids) == 2 {
+			pids = append(pids, ids[0])
+			started[ids[0]] = i
+		} else {
+			pids = append(pids, 0)
+		}
+	}
+	obs["launches"] = len(r.Launches)
+	for i, l := range r.Launches {
+		if l.Err != "<nil>" {
+			continue // a Launch that reports failure claims nothing (resource exhaustion is possible with 48 processes)
+		}
+		obs["succeeded"] = fmt.Sprint(obs["succeeded"]) + "."
+		if l.Pid != pids[i] {
+			other := "no daemon of this run"
+			if j, ok := started[l.Pid]; ok {
+				other = fmt.Sprintf("the process running the handler of daemon #%d", j)
+			}
+			return fmt.Sprintf("16 simultaneous Launch calls for 16 names in one process: Launch of daemon #%d returned pid %d, which is %s; the handler of #%d runs in pid %d", i, l.Pid, other, i, pids[i]), "", obs
+		}
+		if !alive(l.Pid) {
+			return fmt.Sprintf("16 simultaneous Launch calls for 16 names in one process: daemon #%d (pid %d) is not running after its Launch returned nil", i, l.Pid), "", obs
+		}
+	}
+	return "", "", obs
+}
+
 func fileExists(p string) bool { _, err := os.Stat(p); return err == nil }
 
 func must(b []byte, err error) []byte { return b }
@@ -711,11 +781,24 @@ func main() {
 			wg.Wait()
 		}
 	}
+	// an infrastructure failure in the same-process plans is fatal only if no plan found a violation
+	var lateInfra []string
+	for rep := 0; rep < reps; rep++ {
+		v, infra, obs := replayManyAtOnce(work)
+		replays += 16
+		if infra != "" {
+			lateInfra = append(lateInfra, fmt.Sprintf("16 simultaneous Launch calls in one process: %s (%v)", infra, obs))
+		}
+		if v != "" {
+			viols = append(viols, vcommon.Violation{Scenario: "16 simultaneous launches of different daemons in one process", Fingerprint: "many-at-once|" + firstWords(v, 12),
+				Message: "C20: " + v + fmt.Sprintf(" [observed %v]", obs), Witness: map[string]any{"observed": obs}})
+		}
+	}
 	for rep := 0; rep < reps; rep++ {
 		v, infra, obs := replaySameProcess(work)
 		replays += 2
 		if infra != "" {
-			vcommon.Infra("two Launch calls in one process: %s (%v)", infra, obs)
+			lateInfra = append(lateInfra, fmt.Sprintf("two Launch calls in one process: %s (%v)", infra, obs))
 		}
 		if v != "" {
 			viols = append(viols, vcommon.Violation{Scenario: "2 launches overlapping in one process", Fingerprint: "same-process|" + firstWords(v, 12),
@@ -726,12 +809,15 @@ func main() {
 		v, infra, obs := replayFailedThenHealthy(work)
 		replays += 2
 		if infra != "" {
-			vcommon.Infra("failed then healthy Launch in one process: %s (%v)", infra, obs)
+			lateInfra = append(lateInfra, fmt.Sprintf("failed then healthy Launch in one process: %s (%v)", infra, obs))
 		}
 		if v != "" {
 			viols = append(viols, vcommon.Violation{Scenario: "a failed Launch followed by a healthy one in one process", Fingerprint: "failed-then-healthy|" + firstWords(v, 12),
 				Message: "C20: " + v + fmt.Sprintf(" [observed %v]", obs), Witness: map[string]any{"observed": obs}})
 		}
+	}
+	if len(lateInfra) > 0 && len(viols) == 0 {
+		vcommon.Infra("%s", strings.Join(lateInfra, "; "))
 	}
 	for _, m := range models {
 		if m.Errors > 0 && len(viols) == 0 {
@@ -750,7 +836,7 @@ func main() {
 		Coverage: map[string]any{
 			"states": states, "transitions": trans, "traces_validated_against_impl": replays,
 			"evaluations": replays, "distinct_nontrivial": len(jobs),
-			"rule":       "states/transitions: reachable states of the 3-process Promela model (1 and 2 concurrent Launch calls) explored exhaustively by spin, parameterised by whether the launcher's SIGINT handler is in place before cmd.Start (measured on the processes, cross-checked against the source); every maximal path (pan -e -c0, one trail each, replayed with spin -t) is projected onto {Done() before the first pause point / between the two / after the second}; every such class is replayed on real processes through the verif pause points and compared with the model's prediction",
+			"rule":       "states/transitions: reachable states of the 3-process Promela model (1 and 2 concurrent Launch calls) explored exhaustively by spin, parameterised by whether the launcher's SIGINT handler is in place before cmd.Start (measured on the processes, cross-checked against the source); every maximal path (pan -e -c0, one trail each, replayed with spin -t) is projected onto {Done() before the first pause point / between the two / after the second}; every such class is replayed on real processes through the verif pause points and compared with the model's prediction; further plans on real processes: two overlapping Launch calls in one process, a failing Launch followed by a healthy one, 16 simultaneous Launch calls for 16 daemon names in one process (each must return the pid of the process running its own handler)",
 			"exhaustive": true, "model_conformance_warnings": warnings, "model_runs": models, "notify_before_start": nf, "classes_replayed": len(jobs), "repetitions": reps, "samples": samples,
 		},
 		Assumptions: []string{"inside a schedule class the kernel's scheduling is free; the classes are exactly the orders distinguishable at the model's granularity",
